@@ -189,6 +189,52 @@ def run(chk, tier):
         chk.ok("R13.3", "extract_hex_val shared", {"string": hs, "bytes": hb})
     else:
         chk.bad("R13.3", "extract_hex_val shared", "string (%d) and bytes (%d) scanners no longer share the hex escape helper" % (hs, hb), s.file)
+    # ---------------- R13.8 bytes literals: a scanned character contributes its UTF-8 encoding, never its low byte
+    chk.rule("R13.8", "bytes literal scanner: the only `char as u8` narrowings are of the value of a one- or two-digit hex escape (at most 0xFF) or of a character tested to be ASCII; "
+                      "an unescaped character is appended through its UTF-8 encoding")
+    n_c8 = 0
+    for b_ in common.with_private_callees(F, by):
+        if b_.path.endswith("extract_hex_val"):
+            continue
+        qb_ = _mq.BodyQ(b_)
+        doms_ = None
+        for blk_, st_ in b_.stmts():
+            rv_ = st_.get("rv", {})
+            if rv_.get("k") != "cast" or not rv_["ck"].startswith("IntToInt") or (rv_.get("from"), rv_.get("to")) != ("char", "u8"):
+                continue
+            if isinstance(rv_.get("op"), dict) and "const" in rv_["op"]:
+                continue
+            n_c8 += 1
+            ex_ = _mq.expr_of(qb_, rv_["op"])
+            key_ = "bytes|char as u8|" + re.sub(r"\bp\d+\b", "p", ex_)[:70]
+            if re.search(r"extract_hex_val\([^,()]+, [12]\)", ex_):
+                chk.ok("R13.8", key_, "value of a two-digit hex escape")
+                continue
+            # dominated by the true edge of an ASCII test of the same value?
+            guarded_ = False
+            for sb_, t_ in b_.terms("switch"):
+                de_ = _mq.expr_of(qb_, t_["discr"])
+                if not re.search(r"is_ascii\w*\(", de_):
+                    continue
+                one_ = [c_[1] for c_ in t_["cases"] if int(c_[0]) == 1]
+                zero_ = [c_[1] for c_ in t_["cases"] if int(c_[0]) == 0]
+                tt_ = one_[0] if one_ else (t_["otherwise"] if zero_ else None)
+                ft_ = zero_[0] if zero_ else t_["otherwise"]
+                if tt_ is not None and tt_ != ft_ and b_.dominates(tt_, blk_):
+                    guarded_ = True
+            if guarded_:
+                chk.ok("R13.8", key_, "under an ASCII test")
+            else:
+                chk.bad("R13.8", key_, "parse_bytes_literal narrows the character %s to one byte with `as u8`: an unescaped character at or above U+0100 contributes only its low byte "
+                                       "(b'\u20ac' would be [0xAC]) and one in U+0080..U+00FF a single byte instead of its two-byte UTF-8 encoding" % ex_[:80], b_.file)
+    cal_by = {}
+    for b_ in common.with_private_callees(F, by):
+        cal_by.update(common.callees_g(b_))
+    if any(re.search(r"char>::encode_utf8|char>::to_string|String::push$|<char as .*ToString>|String>::push\b", c_) for c_ in cal_by):
+        chk.ok("R13.8", "bytes|unescaped characters are UTF-8 encoded")
+    else:
+        chk.bad("R13.8", "bytes|unescaped characters are UTF-8 encoded", "the bytes literal scanner no longer encodes unescaped characters as UTF-8 (no encode_utf8 / String::push)", by.file)
+    chk.floor("R13.8", "char->u8 narrowings examined", n_c8, 1)
     # ---------------- R13.4 escape tables (one step of the literal loop after a backslash, by symbolic execution)
     chk.rule("R13.4", "escape tables of string and bytes literals = the CEL table (\\a \\b \\f \\n \\r \\t \\v \\\\ \\' \\\" \\xHH, strings also \\uHHHH \\UHHHHHHHH, three octal digits); any other escape is an error, not a value")
     chk.rule("R13.5", "extract_hex_val yields a character only after exactly `len` hex digits; fewer digits, a non-hex character or an invalid code point are errors")
